@@ -337,7 +337,7 @@ theorem fieldRT_int (name pres len bo sg off mult) : FieldRT (.int name pres len
   have hv : getPres pres (pre ++ [(name, Val.int x)] ++ post) = .ok true := by
     rw [List.append_assoc]; exact getPres_append _ _ _ _ hp
   have hbs := intToBytes_of_fits len bo sg _ hfit
-  obtain ⟨hdec, hbl, _⟩ := intFromBytes_intToBytes _ _ _ _ _ hbs
+  obtain ⟨hdec, hbl, _⟩ := intFromBytes_intToBytes _ _ _ _ _ hbs (fun _ => by omega)
   generalize bytesOf len bo _ = bs at hbs hdec hbl
   refine ⟨bs, ?_, hbl, ?_⟩
   · simp only [fieldTo]
@@ -411,7 +411,7 @@ theorem fieldRT_bits (pres len little fs) : FieldRT (.bits pres len little fs) :
   obtain ⟨e1, e2, e3⟩ := bits_roundtrip offs (L * 8) pre c post 0 hchain hir
   have hfit := packVals_fits L _ e2
   have hbs := intToBytes_of_fits L .big false _ hfit
-  obtain ⟨hdec, hbl, hib⟩ := intFromBytes_intToBytes _ _ _ _ _ hbs
+  obtain ⟨hdec, hbl, hib⟩ := intFromBytes_intToBytes _ _ _ _ _ hbs (fun h => by cases h)
   generalize bytesOf L .big _ = bs at hbs hdec hbl hib
   refine ⟨bs, ?_, hbl, ?_⟩
   · simp only [fieldTo, hd]
